@@ -12,6 +12,7 @@ pub enum X3 {
     G = 0b010,
     T = 0b011,
     #[alt(0b101)]
+    #[alt(0b110)]
     N = 0b100,
     #[display('-')]
     Gap = 0b111,
